@@ -338,7 +338,7 @@ pub fn exh_runs(prop: &str, n: usize, cfg_b: bool, tier: Tier) -> Vec<RunSpec> {
                             continue;
                         }
                         let mut sigs = vec![SignalPlan::BeforeCall, SignalPlan::Tape];
-                        if api.is_fold() {
+                        if !api.is_stream() {
                             for f in 0..n as u32 {
                                 sigs.push(SignalPlan::AtStart(f));
                                 sigs.push(SignalPlan::AtEnd(f));
@@ -415,12 +415,20 @@ fn observe(prop: &str, st: &mut Stats, sub: &Subject, rs: &RunSpec, t: &Trace) {
             if let Some(k) = oracles::starts_after_signal(t) {
                 let before = !t.log[..t.log.iter().position(|e| *e == Ev::Signal).unwrap()].iter().any(|e| matches!(e, Ev::Poll | Ev::Spurious));
                 let b = oracles::intr_bound(rs, before);
-                st.count(&format!("after_signal.{:?}.inc{}.{}={}", rs.intr, rs.include as u8, if before { "before_call" } else { "midway" }, k));
-                if let Some(b) = b {
-                    if k == b && b > 0 {
-                        st.count("bound_reached");
+                let inside = rs.api.is_concurrent_call() && matches!(rs.signal, SignalPlan::AtStart(_) | SignalPlan::AtEnd(_));
+                if inside {
+                    // counted from the signal itself, i.e. including functions dequeued before it;
+                    // the oracle counts from the next quiescent point (see o_intr)
+                    st.count(&format!("after_signal_sent_inside_future_of_concurrent_call.{:?}={}", rs.intr, k));
+                    st.count("signals_sent_inside_future_of_concurrent_call");
+                } else {
+                    st.count(&format!("after_signal.{:?}.inc{}.{}={}", rs.intr, rs.include as u8, if before { "before_call" } else { "midway" }, k));
+                    if let Some(b) = b {
+                        if k == b && b > 0 {
+                            st.count("bound_reached");
+                        }
+                        st.count("signals_with_effective_strategy");
                     }
-                    st.count("signals_with_effective_strategy");
                 }
             }
         }
@@ -592,6 +600,82 @@ pub fn run(opts: &Opts, cfg_b: bool) -> Option<Stats> {
     total.add("random.cases_requested", cases);
     total.add("random.cases_run", rnd.evaluations);
     total.merge(rnd);
+
+    // ---- phase 3: the same entry points inside a real tokio runtime (cooperative budget) ----
+    if !matches!(prop, "C06" | "C08") {
+        let rcases = ((if opts.tier == Tier::Quick { 1_500 } else { 40_000 }) as f64 * opts.scale) as u64;
+        let rtm = par_for(opts.jobs, rcases, 8, Some(deadline), |st: &mut Stats, i: u64, slot: &Slot| {
+            let mut rng = Rng::new(mix(seed ^ 0x7075, i));
+            let wide = i % 4 == 0;
+            let gs = if wide {
+                let n = *rng.pick(&[65usize, 129, 200, 300]);
+                gen::wide_graph(&mut rng, n)
+            } else {
+                gen::random_graph(&mut rng, &plan_ref.gprof)
+            };
+            let n = gs.n;
+            let mut rs = gen::random_run(&mut rng, n, &plan_ref.rprof, cfg_b);
+            rs.modes = (0..n).map(|_| if rng.chance(2, 3) { Mode::Ready } else { Mode::SelfWake(rng.range(1, 2) as u8) }).collect();
+            rs.batch = false;
+            rs.spurious = 0;
+            rs.allow_drop = false;
+            if rs.signal != SignalPlan::Never {
+                rs.signal = SignalPlan::BeforeCall;
+            }
+            set_what(slot, &gs, &rs);
+            let mut sub = match Subject::new(gs) {
+                Ok(s) => s,
+                Err(_) => {
+                    st.count("skipped_build_panicked");
+                    return;
+                }
+            };
+            let (t, hold) = if rs.api.is_stream() {
+                let hold = *rng.pick(&[0usize, 0, 1, 3]);
+                (crate::threads::runtime_stream_case(&sub.g, &rs, hold), hold)
+            } else {
+                (crate::threads::runtime_case(&mut sub.g, &rs), 0)
+            };
+            st.evaluations += 1;
+            st.count("tokio_runtime.runs");
+            if wide {
+                st.count("tokio_runtime.wide_graph_runs");
+            }
+            st.add("events", t.log.len() as u64);
+            st.count(&format!("api.{}", rs.api.name()));
+            st.count(&format!("tokio_runtime.term.{}", crate::runner::term_name(&t)));
+            let c = Ctx { gs: &sub.gs, ug: &sub.ug, built: &sub.built, rs: &rs };
+            let mut out = Vec::new();
+            if rs.api.is_stream() {
+                // the runtime consumer does not record waker state, so the stall invariant is
+                // replaced by its own logical verdict; the other oracles apply unchanged
+                match prop {
+                    "C05" => {
+                        match &t.term {
+                            Term::Stalled => out.push(Violation { prop: "C05", kind: "stall-in-tokio-runtime", detail: format!("stream consumed inside a tokio current-thread runtime (holding at most {hold} FnRefs) stayed pending with nothing held and no wake-up") }),
+                            Term::Panicked(m) => out.push(Violation { prop: "C05", kind: "panic", detail: m.clone() }),
+                            _ => {
+                                let yields = t.log.iter().filter(|e| matches!(e, Ev::Yield(_) | Ev::YieldIntr(_))).count();
+                                if yields != n && !oracles::interrupted_effectively(&rs, &t) {
+                                    out.push(Violation { prop: "C05", kind: "none-before-all-yielded", detail: format!("inside a tokio runtime the stream returned None after {yields} of {n} functions (holding at most {hold} FnRefs)") });
+                                }
+                            }
+                        }
+                    }
+                    _ => check(&c, &t, &mut out),
+                }
+            } else {
+                check(&c, &t, &mut out);
+            }
+            for v in &out {
+                let case = format!("g={}|r={}|rt=tokio_current_thread|hold={hold}", sub.gs.encode(), rs.encode());
+                let mut v2 = v.clone();
+                v2.detail = format!("[tokio current-thread runtime] {}", v.detail);
+                st.violation(&v2, case, crate::exec::log_str(&t.log, 120));
+            }
+        });
+        total.merge(rtm);
+    }
     Some(total)
 }
 
